@@ -1486,7 +1486,12 @@ class Mutable(EnvironmentFilter):
         if first_is_mutable:
             for interaction in interactions:
                 new = interaction.copy()
-                new['context'] = new['context'].copy()
+                context = new['context']
+                #the first container being mutable doesn't mean that all are (e.g., lists and tuples can be mixed)
+                if isinstance(context, (list,dict,SparseDense)):
+                    new['context'] = context.copy()
+                else:
+                    new['context'] = list(context) if first_is_dense else dict(context.items())
                 yield new
 
         elif first_is_dense:
